@@ -10,8 +10,8 @@ open GS.Alloc
 /-- request `r` has something in the message -/
 def content (b : Builder) (r : Req) : Prop := ahas b.responses r = true ∨ r ∈ b.requests
 
-/-- subscriber `u` is attached to builder `b` (topic `t`) through a request that has content in it -/
-def AttB (u : Sub) (t : Nat) (b : Builder) : Prop := (b.topic : Nat) = t ∧ ∃ r, (r, u) ∈ b.subs ∧ content b r
+/-- subscriber `u` is attached to builder `b` (topic `t`) through request `r`, which has content in it -/
+def AttB (u : Sub) (t : Nat) (r : Req) (b : Builder) : Prop := (b.topic : Nat) = t ∧ (r, u) ∈ b.subs ∧ content b r
 
 /-- every attachment of the builder is the request's own subscriber, and every response stream of
     the builder has its subscriber attached -/
@@ -87,13 +87,13 @@ theorem applyAll_keeps (b : Builder) (r : Req) (items : List Item) :
 /-- the build function of a transaction whose subscriber is its request's -/
 theorem runFn_att (f : Req → Sub) (closed : List Req) (b : Builder) (tx : Tx) (hf : tx.sub = f tx.req) (hb : BFun f b) :
     BFun f (runFn closed b tx) ∧
-    (∀ u t, AttB u t b → AttB u t (runFn closed b tx)) := by
+    (∀ u t r, AttB u t r b → AttB u t r (runFn closed b tx)) := by
   unfold runFn
   cases hw : tx.who with
   | response =>
     simp only
     split
-    · exact ⟨hb, fun _ _ h => h⟩
+    · exact ⟨hb, fun _ _ _ h => h⟩
     · obtain ⟨k1, k2, k3, k4⟩ := applyAll_keeps b tx.req tx.items
       have htop := applyAll_topic b tx.req tx.items
       constructor
@@ -115,8 +115,8 @@ theorem runFn_att (f : Req → Sub) (closed : List Req) (b : Builder) (tx : Tx) 
               apply mem_aset_other
               · rw [k1]; exact h1
               · exact hk
-      · intro u t ⟨ht, r, hr, hc⟩
-        refine ⟨by show ((b.applyAll tx.req tx.items).topic : Nat) = t; rw [htop]; exact ht, r, ?_, ?_⟩
+      · intro u t r ⟨ht, hr, hc⟩
+        refine ⟨by show ((b.applyAll tx.req tx.items).topic : Nat) = t; rw [htop]; exact ht, ?_, ?_⟩
         · show (r, u) ∈ aset (b.applyAll tx.req tx.items).subs tx.req tx.sub
           rw [k1]
           by_cases hk : r = tx.req
@@ -140,8 +140,8 @@ theorem runFn_att (f : Req → Sub) (closed : List Req) (b : Builder) (tx : Tx) 
         · show (e.1, f e.1) ∈ aset b.subs tx.req tx.sub
           rw [hk, ← hf]; exact mem_aset_self _ _ _
         · exact mem_aset_other _ _ _ h1 hk
-    · intro u t ⟨ht, r, hr, hc⟩
-      refine ⟨ht, r, ?_, ?_⟩
+    · intro u t r ⟨ht, hr, hc⟩
+      refine ⟨ht, ?_, ?_⟩
       · show (r, u) ∈ aset b.subs tx.req tx.sub
         by_cases hk : r = tx.req
         · have : u = tx.sub := by rw [hf, ← hk]; exact hb.subs (r, u) hr
@@ -159,7 +159,7 @@ theorem runFn_att (f : Req → Sub) (closed : List Req) (b : Builder) (tx : Tx) 
 theorem scrub_att (f : Req → Sub) (b : Builder) (reqs : List Req) (hb : BFun f b) :
     BFun f (b.scrub reqs).1 ∧
     (∀ u t r, (b.topic : Nat) = t → (r, u) ∈ b.subs → content b r → reqs.contains r = false →
-      AttB u t (b.scrub reqs).1) := by
+      AttB u t r (b.scrub reqs).1) := by
   constructor
   · constructor
     · intro e he
@@ -172,7 +172,7 @@ theorem scrub_att (f : Req → Sub) (b : Builder) (reqs : List Req) (hb : BFun f
       exact List.mem_filter.mpr ⟨hb.streams e h2, h3⟩
   · intro u t r ht hr hc hn
     have hnm : ¬ r ∈ reqs := by intro h; have := List.contains_iff_mem.mpr h; rw [hn] at this; cases this
-    refine ⟨ht, r, ?_, ?_⟩
+    refine ⟨ht, ?_, ?_⟩
     · show (r, u) ∈ adel b.subs reqs
       exact List.mem_filter.mpr ⟨hr, by simp [hnm]⟩
     · rcases hc with hc | hc
@@ -184,8 +184,8 @@ theorem scrub_att (f : Req → Sub) (b : Builder) (reqs : List Req) (hb : BFun f
       · exact Or.inr hc
 
 /-- an attached builder has content -/
-theorem AttB.nonempty {u : Sub} {t : Nat} {b : Builder} (h : AttB u t b) : b.empty = false := by
-  obtain ⟨_, r, _, hc⟩ := h
+theorem AttB.nonempty {u : Sub} {t : Nat} {r : Req} {b : Builder} (h : AttB u t r b) : b.empty = false := by
+  obtain ⟨_, _, hc⟩ := h
   unfold Builder.empty
   rcases hc with hc | hc
   · obtain ⟨v, hv⟩ := mem_of_ahas hc
